@@ -79,7 +79,7 @@ class World:
         for i, n in enumerate(nodes):
             ctrl = hc.make_node(n, node_id=i, stack=hc.RecordingStack(), step_limit=100000)
             self.nodes[n] = {"ctrl": ctrl, "ex": ctrl.executor, "active": {}, "blocked": [], "requests": [], "msg": 0,
-                             "rid": 0}
+                             "rid": 0, "early": []}
 
     # -- operations ---------------------------------------------------------------------------------------
     def send(self, node, msg_obj, app=None):
@@ -139,6 +139,31 @@ class World:
         self.resume(node)
         return "delivered"
 
+    def deliver_early(self, node, app, v):
+        """The remote side is ahead: a pair for socket (app, v) is generated, its memory position reserved and the OK message
+        handed to the executor BEFORE the application has posted the matching recv_epr (it stays pending)."""
+        from netqasm import qlink_compat as ql
+        n = self.nodes[node]
+        sock = 10 * app + v
+        if (app, sock) in n["requests"] or sock in n["early"]:
+            return "skip"
+        ex = n["ex"]
+        phys = ex._get_unused_physical_qubit()
+        ex.inflight_phys.add(phys)
+        n["rid"] += 1
+        n["early"].append(sock)
+        resp = ql.LinkLayerOKTypeK(type=ql.ReturnType.OK_K, create_id=n["rid"], logical_qubit_id=phys, directionality_flag=1,
+                                   sequence_number=n["rid"], purpose_id=sock, remote_node_id=9, goodness=1, goodness_time=1,
+                                   bell_state=ql.BellState.PHI_PLUS)
+        try:
+            ex._handle_epr_response(resp)
+        except InvariantBroken:
+            raise
+        except Exception as exc:
+            return f"fault:{type(exc).__name__}"
+        self.resume(node)
+        return "early"
+
 
 def sub_msg(app, text):
     from netqasm.backend.messages import SubroutineMessage
@@ -160,6 +185,8 @@ def do_op(w: World, op):
         return r
     if k == "deliver":
         return w.deliver_keep(node)
+    if k == "early":
+        return w.deliver_early(node, op[2], op[3])      # whether or not the application is registered right now
     app = op[2]
     if app not in n["active"]:
         return "skip"
@@ -186,6 +213,8 @@ def do_op(w: World, op):
         r = w.send(node, sub_msg(app, f"array 10 @5\narray 1 @6\nstore {v} @6[0]\nrecv_epr(9,{sock}) 6 5\nwait_all @5[0:10]\n"), app)
         if r == "blocked":
             n["requests"].append((app, sock))
+        elif sock in n["early"] and not any(getattr(x, "purpose_id", None) == sock for x in n["ex"]._pending_epr_responses):
+            n["early"].remove(sock)        # the early pair was handed over
         return r
     if k == "deliver":
         return w.deliver_keep(node)
@@ -225,6 +254,9 @@ def check_invariants(w: World, ctx, where):
         if not set(phys) <= used:
             return f"{where}: on {node} mapped physical qubits {sorted(set(phys) - used)} are not marked in use"
         pending_ids = {r.logical_qubit_id for r in ex._pending_epr_responses if hasattr(r, "logical_qubit_id")}
+        if not pending_ids <= used:
+            return (f"{where}: on {node} the memory position(s) {sorted(pending_ids - used)} reserved for a pair that has not been handed "
+                    f"over yet are no longer marked in use")
         extra = used - set(phys)
         if not extra <= pending_ids:
             return (f"{where}: on {node} physical qubits {sorted(extra - pending_ids)} are marked in use but mapped by no virtual qubit "
@@ -305,13 +337,21 @@ def run_history(ctx, ops):
 ALPHABET = ([("init", "n0", 0, 2), ("init", "n0", 1, 1), ("stop", "n0", 0), ("stop", "n0", 1)] +
             [("alloc", "n0", 0, 0), ("alloc", "n0", 0, 1), ("alloc", "n0", 1, 0), ("free", "n0", 0, 0), ("free", "n0", 0, 1), ("free", "n0", 1, 0)] +
             [("write", "n0", 0, 1), ("write", "n0", 1, 2), ("recv", "n0", 0, 0), ("recv", "n0", 1, 0), ("deliver", "n0"),
-             ("init", "n1", 0, 1), ("alloc", "n1", 0, 0), ("write", "n1", 0, 1), ("stop", "n1", 0)])
+             ("init", "n1", 0, 1), ("alloc", "n1", 0, 0), ("write", "n1", 0, 1), ("stop", "n1", 0), ("early", "n0", 0, 0)])
 
 
-def random_op(rng):
+INFLIGHT = [("recv", "n0", 0, 0), ("recv", "n0", 0, 1), ("recv", "n0", 1, 0), ("deliver", "n0"), ("write", "n0", 0, 1), ("write", "n0", 1, 2),
+            ("early", "n0", 0, 1), ("stop", "n0", 0), ("init", "n0", 0, 2), ("alloc", "n0", 1, 0)]
+
+
+def random_op(rng, profile="mixed"):
     node = rng.choice(["n0", "n0", "n1"])
     app = rng.randrange(3)
-    k = rng.choice(["init", "stop", "alloc", "alloc", "free", "free", "write", "write", "recv", "deliver", "deliver"])
+    if profile == "inflight":
+        # several subroutines blocked in a wait at once, finishing in any order, while others start
+        k = rng.choice(["init", "init", "stop", "alloc", "free", "write", "write", "recv", "recv", "recv", "deliver", "deliver", "early"])
+    else:
+        k = rng.choice(["init", "stop", "alloc", "alloc", "free", "free", "write", "write", "recv", "deliver", "deliver", "early"])
     if k == "init":
         return ("init", node, app, rng.choice([1, 2, 3, 4]))
     if k in ("stop",):
@@ -326,18 +366,95 @@ def cases(ctx):
     depth = 5 if ctx.quick else 7
     if True:
         yield {"kind": "search", "depth": depth, "shard": ctx.shard, "nshards": ctx.nshards}
+        # second search: two registered applications, alphabet of subroutines that block and finish in any order
+        yield {"kind": "search", "depth": depth, "shard": ctx.shard, "nshards": ctx.nshards, "alphabet": "inflight"}
     for _ in range(ctx.n(60, 3000)):
         n = 150 if ctx.quick else 500
-        yield {"kind": "walk", "ops": [list(random_op(rng)) for _ in range(n)]}
+        profile = rng.choice(["mixed", "inflight"])
+        yield {"kind": "walk", "ops": [list(random_op(rng, profile)) for _ in range(n)]}
+    for _ in range(ctx.n(40, 2000)):
+        yield {"kind": "sdk-walk", "steps": rng.choice([30, 60]), "seed": rng.randrange(2**31)}
     # documented witness: stop then re-register the same id on the same controller
     if ctx.shard == 0:
         yield {"kind": "walk", "ops": [["init", "n0", 0, 2], ["alloc", "n0", 0, 1], ["write", "n0", 0, 3], ["stop", "n0", 0],
                                        ["init", "n0", 0, 2], ["alloc", "n0", 0, 1], ["stop", "n0", 0], ["init", "n0", 0, 1]]}
 
 
+def _sdk_walk(ctx, case):
+    """Host side of the same property: SDK connections of one party are opened and closed in any order (not only nested)
+    on one controller, with explicit and automatic application ids, and allocate / free / write in between.  The
+    controller-level invariants are evaluated after every host step; an application's state may only change by its own steps."""
+    from netqasm.sdk.qubit import Qubit
+    from vf.harness.pipeline import Pipe
+    r = random.Random(case["seed"])
+    p = Pipe(max_qubits=3)
+    ex = p.ex
+    conns = {0: {"conn": p.conn, "qs": [], "max": 3}}       # slot -> connection and the qubits it holds
+    nxt = 1
+    hist = []
+
+    class W:                                      # the shape check_invariants expects
+        nodes = {"alice": {"ex": ex, "active": {}}}
+    try:
+        for step in range(case["steps"]):
+            k = r.choice(["open", "open", "close", "alloc", "alloc", "free", "write", "flush"])
+            slot = r.choice(sorted(conns)) if conns else None
+            target = None
+            before = {c["conn"].app_id: snapshot_app(ex, "alice", c["conn"].app_id) for c in conns.values()}
+            if k == "open" and len(conns) < 3:
+                explicit = None
+                if r.random() < 0.25:
+                    used_ids = {c["conn"].app_id for c in conns.values()}
+                    explicit = r.choice([i for i in range(5) if i not in used_ids])
+                mq = r.choice([1, 2, 3])
+                conns[nxt] = {"conn": p.open(app_id=explicit, max_qubits=mq), "qs": [], "max": mq}
+                hist.append(("open", nxt, conns[nxt]["conn"].app_id))
+                target = conns[nxt]["conn"].app_id
+                nxt += 1
+                ctx.count("sdk_connections_opened")
+            elif slot is None:
+                continue
+            elif k == "close":
+                c = conns.pop(slot)
+                target = c["conn"].app_id
+                hist.append(("close", slot, target))
+                c["conn"].close()
+            else:
+                c = conns[slot]
+                target = c["conn"].app_id
+                hist.append((k, slot, target))
+                if k == "alloc" and len(c["qs"]) < c["max"]:
+                    c["qs"].append(Qubit(c["conn"]))
+                elif k == "free" and c["qs"]:
+                    c["qs"].pop(r.randrange(len(c["qs"]))).measure()
+                elif k == "write":
+                    c["conn"].new_array(2, init_values=[100 * target + step, 1])
+                c["conn"].flush()
+            W.nodes["alice"]["active"] = {c["conn"].app_id: c["max"] for c in conns.values()}
+            ids = [c["conn"].app_id for c in conns.values()]
+            if len(set(ids)) != len(ids):
+                return ctx.fail(case, f"host history {hist[-8:]}: two open connections of one party share application id {ids}")
+            err = check_invariants(W, ctx, f"after host step {hist[-1] if hist else k}")
+            if err:
+                return ctx.fail(case, f"host history {hist[-8:]}: {err}")
+            for a, snap in before.items():
+                if a != target and a in W.nodes["alice"]["active"]:
+                    now = snapshot_app(ex, "alice", a)
+                    ctx.count("isolation_snapshots")
+                    if now != snap:
+                        diff = [x for x in snap if snap[x] != now[x]]
+                        return ctx.fail(case, f"host history {hist[-8:]}: a step of application {target} changed application {a} ({', '.join(diff)})")
+    except Exception as e:
+        ctx.fail(case, f"host history {hist[-8:]}: {type(e).__name__}: {str(e)[:200]}")
+
+
 def run_case(ctx, case):
     from vf.common import h64
     _state["ctx"] = ctx
+    if case["kind"] == "sdk-walk":
+        _state["viol"] = None
+        _sdk_walk(ctx, case)
+        return ctx.case(case, True)
     if case["kind"] == "walk":
         err, info = run_history(ctx, [tuple(o) for o in case["ops"]])
         if err:
@@ -350,10 +467,14 @@ def run_case(ctx, case):
     seen = set()
     frontier = [[]]
     total = 0
+    alphabet = ALPHABET
+    if case.get("alphabet") == "inflight":
+        frontier = [[["init", "n0", 0, 2], ["init", "n0", 1, 1]]]
+        alphabet = INFLIGHT
     for d in range(case["depth"]):
         nxt = []
         for seq in frontier:
-            for j, op in enumerate(ALPHABET):
+            for j, op in enumerate(alphabet):
                 cand = seq + [list(op)]
                 if d == 0 and j % case["nshards"] != case["shard"]:
                     continue   # shard the search by its first operation
